@@ -1,7 +1,7 @@
 (* C11 - zero padding: trailing zeros are ignored when tolerated, rejected when not.  Statements only. *)
 From Coq Require Import ZArith List Bool String.
 From UDS Require Import Lib.Bytes Lib.ErrM Lib.PyOps Model.Message Model.Client Model.Services Model.Svc_Did Model.Svc_Dtc
-  Proofs.C02_lemmas.
+  Proofs.C02_lemmas Proofs.C02b_lemmas.
 Import ListNotations.
 Open Scope Z_scope.
 
@@ -45,7 +45,56 @@ Theorem C11_dids_strict : forall pc req pre vals b fuel,
 Proof. exact rdbi_loop_strict_one. Qed.
 Print Assumptions C11_dids_strict.
 
-(* C11_partial: with ignore_all_zero_dtc off the whole all-zero records among the padding become DTC 0 records (the
-   exception clause of the property); that case, the 6-byte severity records, the fault-counter / snapshot /
-   extended-data decoders, io_control, read_memory_by_address and request_file_transfer are covered by the
-   padding correspondence (every pad length 0..2*rs+1, four settings), not yet by a Coq theorem. *)
+(* the nested decoders: any number n of trailing zero bytes after any complete valid response changes nothing when padding is
+   tolerated (snapshots by DTC number and by record number, extended data by DTC number) ... *)
+Theorem C11_snapshots_tolerant : forall cfg a dtc st l n,
+  0 <= dtc < 16777216 -> 0 <= st < 256 -> 1 <= snap_did cfg <= 8 -> Forall (wf_snap (pc_of cfg)) l -> tol_pad cfg = true ->
+  rdtci_decode cfg 4 a ([4] ++ be_enc 3 dtc ++ [st] ++ flat_map (snap_rec (Z.to_nat (snap_did cfg))) l ++ repeat 0 n)
+  = rdtci_decode cfg 4 a ([4] ++ be_enc 3 dtc ++ [st] ++ flat_map (snap_rec (Z.to_nat (snap_did cfg))) l).
+Proof.
+  intros cfg a dtc st l n Hd Hs Hz Hw Ht. rewrite (snapshots_by_dtc_decode_pad cfg a dtc st l n Hd Hs Hz Hw (or_intror Ht)).
+  symmetry. exact (snapshots_by_dtc_decode cfg a dtc st l Hd Hs Hz Hw).
+Qed.
+Print Assumptions C11_snapshots_tolerant.
+Theorem C11_snapshots_by_record_tolerant : forall pc l pre acc fuel n,
+  Forall (wf_srec pc) l -> (List.length l < fuel)%nat -> pc_tol pc = true ->
+  loop_snap_by_rec fuel pc (pre ++ flat_map (srec (Z.to_nat (pc_snap pc))) l ++ repeat 0 n) (List.length pre) acc
+  = inr (acc ++ map dtc_of_srec l).
+Proof. intros pc l pre acc fuel n Hw Hf Ht. exact (loop_snap_by_rec_decode pc l pre acc fuel n Hw Hf (or_intror Ht)). Qed.
+Print Assumptions C11_snapshots_by_record_tolerant.
+Theorem C11_extended_data_tolerant : forall cfg a dtc st size l n,
+  0 <= dtc < 16777216 -> 0 <= st < 256 -> ext_size_of cfg a = inr size -> Forall (wf_ext size) l -> tol_pad cfg = true ->
+  rdtci_decode cfg 6 a ([6] ++ be_enc 3 dtc ++ [st] ++ flat_map ext_rec l ++ repeat 0 n)
+  = rdtci_decode cfg 6 a ([6] ++ be_enc 3 dtc ++ [st] ++ flat_map ext_rec l).
+Proof.
+  intros cfg a dtc st size l n Hd Hs Hz Hw Ht. rewrite (extdata_by_dtc_decode_pad cfg a dtc st size l n Hd Hs Hz Hw (or_intror Ht)).
+  symmetry. exact (extdata_by_dtc_decode cfg a dtc st size l Hd Hs Hz Hw).
+Qed.
+Print Assumptions C11_extended_data_tolerant.
+(* ... extended data by record number: zeros are padding when all-zero records are ignored, or when fewer than one whole record
+   (4 + size bytes) of them follows; otherwise they are genuine records (the exception clause of the property) *)
+Theorem C11_extended_data_by_record_tolerant : forall pc size recnum l pre fuel n,
+  Forall (wf_erec size) l -> NoDup (map eid l) -> (List.length l < fuel)%nat ->
+  pc_tol pc = true -> (pc_ign pc = true \/ (n < size + 4)%nat) ->
+  loop_ext_by_rec fuel pc size recnum (pre ++ flat_map erec l ++ repeat 0 n) (List.length pre) [] = inr (map (dtc_of_erec recnum) l).
+Proof.
+  intros pc size recnum l pre fuel n Hw Hn Hf Ht Hi.
+  exact (loop_ext_by_rec_decode pc size recnum l pre [] fuel n Hw Hn (fun y Hy => match Hy with end) Hf (or_intror (conj Ht Hi))).
+Qed.
+Print Assumptions C11_extended_data_by_record_tolerant.
+(* ... the 6-byte severity records and the fault counters *)
+Theorem C11_severity_tolerant : forall pc sub l pre acc n fuel,
+  Forall wf_rec6 l -> Forall (fun x => x <> (0, 0, 0, 0)) l -> pc_tol pc = true -> pc_ign pc = true -> (List.length l + n < fuel)%nat ->
+  loop_records fuel pc sub true (pre ++ flat_map rec6 l ++ repeat 0 n) (List.length pre) acc = inr (acc ++ map dtc6 l).
+Proof. intros pc sub l pre acc n fuel Hw Hz Ht Hi Hf. exact (loop_records6_decode pc sub l pre acc n fuel Hw (fun _ => Hz) (or_intror (conj Ht Hi)) Hf). Qed.
+Print Assumptions C11_severity_tolerant.
+Theorem C11_fault_counters_tolerant : forall pc l pre acc n fuel,
+  Forall wf_rec4 l -> Forall (fun x => x <> (0, 0)) l -> pc_tol pc = true -> pc_ign pc = true -> (List.length l + n < fuel)%nat ->
+  loop_pairs fuel pc true (pre ++ recs4 l ++ repeat 0 n) (List.length pre) acc = inr (acc ++ map dtcf l).
+Proof. intros pc l pre acc n fuel Hw Hz Ht Hi Hf. exact (loop_fault_counters_decode pc l pre acc n fuel Hw (fun _ => Hz) (or_intror (conj Ht Hi)) Hf). Qed.
+Print Assumptions C11_fault_counters_tolerant.
+
+(* C11_partial: with ignore_all_zero_dtc off the whole all-zero records among the padding become DTC 0 records for the fixed-size
+   record lists (the exception clause of the property; proved above only for extended data by record number as the boundary
+   n < 4 + size); that case, io_control, read_memory_by_address and request_file_transfer are covered by the padding
+   correspondence (every pad length 0..2*rs+1, four settings), not yet by a Coq theorem. *)
